@@ -117,6 +117,19 @@ theorem stepTickBegin_detail {s t m s'} (hs : stepTickBegin s t m = some s') :
     obtain ⟨rfl, rfl⟩ := hs
     exact ⟨tok, rest, rfl, by simp [hq]⟩
 
+theorem stepExtBegin_detail {s b m s'} (hs : stepExtBegin s b m = some s') :
+    ∃ tok rest, s.chan.queue = { pl := .ext b, tok } :: rest ∧
+      s'.chan = { s.chan with queue := { pl := .msg m none, tok } :: rest } := by
+  unfold stepExtBegin at hs
+  cases hph : s.phase <;> simp [hph] at hs
+  cases hq : s.chan.queue with
+  | nil => simp [hq] at hs
+  | cons e rest =>
+    obtain ⟨pl, tok⟩ := e
+    cases pl <;> simp [hq] at hs
+    obtain ⟨rfl, rfl⟩ := hs
+    exact ⟨tok, rest, rfl, by simp [hq]⟩
+
 theorem ChanStep.wf {c c'} (h : ChanStep c c') (hw : c.WF) : c'.WF := by
   cases h with
   | same h => rw [h]; exact hw
@@ -147,7 +160,7 @@ theorem ChanSteps.cap {c c'} (h : ChanSteps c c') : c'.cap = c.cap := by
 def Label.isPlain : Label → Bool
   | .mk _ _ _ | .upgrade _ _ | .detach _ _ | .drop _ | .stopReq _ _ | .restartReq _ _ | .query _ _
   | .cbEnd _ _ | .cbAbandon _ | .cbPanic _ | .vnew _ | .work _ | .ctxStop _ | .ctxRestart _
-  | .ctxTimer _ _ _ | .ctxWeak _ _ | .fire _ _ | .timerArm _ _ | .timerEnd _ | .time _ | .streamReady _
+  | .ctxTimer _ _ _ | .ctxWeak _ _ | .fire _ _ | .timerArm _ _ | .timerEnd _ | .extPush _ | .time _ | .streamReady _
   | .streamEnd | .quiescent _ | .tChanEnd | .tStreamEnd => true
   | _ => false
 
@@ -179,6 +192,7 @@ theorem step_plain {w s l s'} (hl : l.isPlain = true) (hs : step w s l = some s'
   case tStreamEnd => exact .inl (stepStreamEndTau_chan hs)
   case timerArm => exact stepTimerArm_chan hs
   case timerEnd => exact .inl (stepTimerEnd_chan hs)
+  case extPush => exact stepExtPush_chan hs
 
 theorem eq_of_nodup_o : ∀ {l : List OpRec}, (l.map (·.o)).Nodup → ∀ {a b}, a ∈ l → b ∈ l → a.o = b.o → a = b
   | [], _, _, _, ha, _, _ => by simp at ha
